@@ -17,6 +17,7 @@ pub fn run(prop: &str, tier: Tier, seed: u64) -> Option<i32> {
     Some(match prop {
         "C01" => c01::run(tier, seed),
         "C02" => c02::run(tier, seed),
+        "C03" => c03::run(tier, seed),
         "C07" => c07::run(tier, seed),
         "C11" => c11::run(tier, seed),
         "C14" => c14::run(tier, seed),
@@ -31,6 +32,7 @@ pub fn scenario(prop: &str, name: &str, tier: Tier) -> Option<BoxedScenario> {
     match prop {
         "C01" => c01::scenario(name, tier),
         "C02" => c02::scenario(name, tier),
+        "C03" => c03::scenario(name, tier),
         "C07" => c07::scenario(name, tier),
         "C11" => c11::scenario(name, tier),
         "C14" => c14::scenario(name, tier),
